@@ -100,6 +100,9 @@ func c02deepNesting(j run.Job, a *run.Acc) {
 func c02plan(tier string, seed int64) []run.Job {
 	var jobs []run.Job
 	jobs = append(jobs, run.Job{Family: "corpus"})
+	// grammars built late in the life of the process (parser indices beyond 2^16 and 2^17)
+	jobs = append(jobs, run.Job{Family: "random", Seed: seed*100000 + 96000, N: 300, P: map[string]int{"strat": 0, "maxlen": 12, "inputs": 6, "burn": 70000}})
+	jobs = append(jobs, run.Job{Family: "mutual", Seed: seed*100000 + 96001, N: 150, P: map[string]int{"inputs": 6, "maxlen": 12, "burn": 140000}})
 	// isolated: each of these runs in a worker process of its own (the second one is known to kill it, K2)
 	jobs = append(jobs, run.Job{Family: "deep-nesting", S: "arithmetic-255-nested-brackets", P: map[string]int{"depth": 255, "isolated": 1}})
 	jobs = append(jobs, run.Job{Family: "deep-nesting", S: "arithmetic-447-nested-brackets", P: map[string]int{"depth": 447, "isolated": 1}})
